@@ -122,6 +122,10 @@ func VerifH_payload() {
 	verifAssert(err == nil, "C18: generatePayload failed")
 	verifAssert(len(payload) == size && len(hash) == 32, "C18: payload or hash of the wrong length")
 	verifAssert(verifHashArgsOK(payload, hash), "C18: generated payload does not carry its SHA-256 hash")
+	// every payload carries its own hash - also the second one generated in a process
+	payload2, hash2, err2 := generatePayload(verifCase("size2"))
+	verifAssert(err2 == nil && len(hash2) == 32, "C18: second generatePayload failed")
+	verifAssert(verifHashArgsOK(payload2, hash2), "C18: a payload generated later in the same process does not carry its SHA-256 hash")
 	verifObserve("len", uint64(len(payload)))
 }
 
